@@ -88,6 +88,10 @@ type histGen struct {
 	poorN     int
 	freshN    int
 	queued    []*txSpec // transactions that follow the one just generated (multi-transaction kinds)
+	// stormOneIn > 0: one block in stormOneIn ends with a run of non-local transfers by the funded actors, some of them
+	// with a signature that does not verify (a block as a follower receives it: every signature is checked by a
+	// goroutine of its own, all at the same time)
+	stormOneIn int
 	kinds     map[string]int
 	weights   []string
 	groupN    int
@@ -587,6 +591,23 @@ func (g *histGen) genBlock(maxTx int) *blockSpec {
 	b := &blockSpec{}
 	for i := 0; i < n; i++ {
 		b.txs = append(b.txs, g.genTx())
+	}
+	if g.stormOneIn > 0 && rapid.IntRange(1, g.stormOneIn).Draw(g.t, "storm") == 1 {
+		m := rapid.IntRange(3, 40).Draw(g.t, "stormSize")
+		every := rapid.IntRange(2, 4).Draw(g.t, "stormEvery")
+		off := rapid.IntRange(0, 3).Draw(g.t, "stormOffset")
+		for i := 0; i < m; i++ {
+			from := g.actor("stormFrom")
+			tx := sim.TransferTx(from, g.w.Nonces.Next(from), g.w.TS+1, sim.KeyFor("sink").Addr, "1")
+			desc := "storm: transfer 1 by " + short8(from) + " (remote)"
+			if (i+off)%every == 0 {
+				tx.Signature[(7*i+off)%len(tx.Signature)] ^= 0x40
+				tx.TransactionHash = tx.Hash()
+				desc = "storm: transfer 1 by " + short8(from) + " with a flipped signature byte (remote)"
+			}
+			b.txs = append(b.txs, &txSpec{tx: tx, kind: "badsig", desc: desc, victim: true})
+		}
+		g.kinds["signature-storm"]++
 	}
 	g.w.TS += 10
 	b.ts = g.w.TS
